@@ -259,6 +259,7 @@ func (c *ShipConnection) setHandshakeTimer(timerType timeoutTimerType, duration 
 			c.handshakeTimerMux.Unlock()
 
 			if !c.isConnectionClosed() {
+				defer verifEntry(c, "timeout")()
 				c.handleState(true, nil)
 			}
 			return
